@@ -593,3 +593,41 @@ Lemma ex_auto_write_undone :
   /\ exists f', write_tool expected_tool_steps x_ws6 x_report corr_ext 0 x_data = (f', None)
                 /\ file_at f' [x_report] = Some x_data /\ rewind f' x_ck6 = (x_ws6, None).
 Proof. repeat split; try (vm_compute; reflexivity). eexists. vm_compute. repeat split. Qed.
+
+(* ---------- the decidable forms of the hypotheses, as evaluated by the correspondence ---------- *)
+Theorem covered_edit_undone_b f root raws ck f' :
+  create f root raws = Ok ck -> tree_b f = true -> nonul_b f = true -> sane_b f' = true ->
+  (forall r, lookup f r = Some Dir -> lookup f' r = Some Dir) ->
+  (forall rel saved, In (rel, saved) ck -> lookup f' (key rel) <> Some Dir) ->
+  (forall q, (forall rel saved, In (rel, saved) ck -> key rel <> q) -> file_at f' q = file_at f q) ->
+  exists f2, rewind f' ck = (f2, None) /\ forall q, file_at f2 q = file_at f q.
+Proof.
+  intros Hc Ht Hn Hs Hm Hd Ho.
+  apply (covered_edit_undone f root raws ck f' Hc (tree_b_sound _ Ht) (nonul_b_sound _ Hn) (sane_b_sound _ Hs) Hm).
+  - intros [rel saved] Hin. exact (Hd rel saved Hin).
+  - intros q Hq. apply Ho. intros rel saved Hin. exact (Hq (rel, saved) Hin).
+Qed.
+
+Theorem write_tool_effect_b f raw ext mode data f' er :
+  write_tool expected_tool_steps f raw ext mode data = (f', er) -> sane_b f = true ->
+  (mode = 0 -> lookup f (t_path (tmp_tgt raw ext)) = None) ->
+  (forall p b, lookup f' p = Some (File b) -> dirs_ok f' [] p = None)
+  /\ (forall r, lookup f r = Some Dir -> lookup f' r = Some Dir)
+  /\ (lookup f' (t_path (mk_tgt [] raw)) = Some Dir -> lookup f (t_path (mk_tgt [] raw)) = Some Dir)
+  /\ (forall q, q <> t_path (mk_tgt [] raw) -> file_at f' q = file_at f q).
+Proof. intros H Hs Hf. exact (write_tool_effect f raw ext mode data f' er H (sane_b_sound _ Hs) Hf). Qed.
+
+Theorem auto_write_undone_b found ts as_ tk prog :
+  cover_wf found ts as_ tk prog = true ->
+  forall f root raw ext mode data f' er,
+  is_absolute root = true -> tree_b f = true -> nonul_b f = true ->
+  (mode = 0 -> forall x, arg_interp ts raw = Ok x -> lookup f (t_path (tmp_tgt x ext)) = None) ->
+  write_tool ts f raw ext mode data = (f', er) ->
+  match auto_checkpoint as_ f root raw with
+  | Some ck => exists f2, rewind f' ck = (f2, None) /\ forall q, file_at f2 q = file_at f q
+  | None => forall q, file_at f' q = file_at f q
+  end.
+Proof.
+  intros Hwf f root raw ext mode data f' er Hr Ht Hn.
+  exact (auto_write_undone found ts as_ tk prog Hwf f root raw ext mode data f' er Hr (tree_b_sound _ Ht) (nonul_b_sound _ Hn)).
+Qed.
